@@ -791,7 +791,13 @@ func g5FromAdd(r *Repo, fi *FuncInfo, e ast.Expr) bool {
 // G10 — print-or-delete on every successful generation pass; stale derived file tolerated/excluded
 // ---------------------------------------------------------------------------------------------
 
-func runG10(r *Repo, rep *Report) {
+func runG10(r *Repo, rep *Report) { g10(r, rep, false) }
+
+// g10PrintOrDelete: the part of G10 that is about generatePackage alone — every successful return has passed Print or Delete,
+// chosen by HasContent (the premise of every property about emitted code).
+func g10PrintOrDelete(r *Repo, rep *Report) { g10(r, rep, true) }
+
+func g10(r *Repo, rep *Report, coreOnly bool) {
 	fi := r.lookup("derive.(*program).generatePackage")
 	if fi == nil {
 		rep.fail(Finding{Rule: "G10", Key: "G10|generatePackage-missing", Kind: "undecided", Msg: "(*program).generatePackage not found"})
@@ -936,6 +942,9 @@ func runG10(r *Repo, rep *Report) {
 	} else {
 		rep.fail(Finding{Rule: "G10", Key: "G10|choice", Where: []string{r.pos(fi.Decl.Pos())},
 			Msg: "generatePackage does not choose Print when HasContent() and Delete otherwise: an empty result must remove the old derived.gen.go, a non-empty one must replace it"})
+	}
+	if coreOnly {
+		return
 	}
 	// hasContent is set by P only
 	prPkg := r.ByName["derive"]
